@@ -20,7 +20,7 @@ static PRISTINE: std::sync::OnceLock<Vec<(usize, Vec<u8>)>> = std::sync::OnceLoc
 
 pub fn pristine_init() {
     PRISTINE.get_or_init(|| {
-        let mut v: Vec<(usize, Vec<u8>)> = crate::targets::real_targets().iter().map(|t| (t.addr, crate::mem::read_bytes(t.addr, 32))).collect();
+        let mut v: Vec<(usize, Vec<u8>)> = crate::targets::real_targets().iter().chain(crate::targets::async_targets().iter()).map(|t| (t.addr, crate::mem::read_bytes(t.addr, 32))).collect();
         for (_, _, _, a) in crate::targets::bystanders() {
             v.push((a, crate::mem::read_bytes(a, 32)));
         }
@@ -105,18 +105,31 @@ pub fn calibrate() -> Value {
     // does not taint the targets before the first case
     let before = cal_target();
     let during;
+    let pages0 = crate::maps::anon_exec_pages();
+    let mut pages_during = vec![];
     {
         let mut inj = ip::sut(InjectorPP::new);
         ip::sut(|| {
             inj.when_called(injectorpp::func!(fn (cal_target)() -> u64))
                 .will_execute_raw(injectorpp::func!(fn (cal_fake)() -> u64));
         });
+        pages_during.extend(crate::maps::anon_exec_pages());
         during = std::panic::catch_unwind(cal_target).unwrap_or(0);
+        // a libc function faked by a function of the executable: far apart
+        let _ = std::panic::catch_unwind(std::panic::AssertUnwindSafe(|| {
+            ip::sut(|| unsafe {
+                inj.when_called_unchecked(injectorpp::func_unchecked!(libc::isblank)).will_execute_raw_unchecked(injectorpp::func_unchecked!(cal_fake_l));
+            })
+        }));
+        pages_during.extend(crate::maps::anon_exec_pages());
         ip::sut(|| drop(inj));
     }
     let after = before;
     let log = ip::log_take();
     let saw = |k: ip::Kind| log.iter().any(|e| e.kind == k);
+    // an implementation is free not to map anything; what must not happen is that it maps
+    // executable memory without the interposer seeing the call
+    let mapped_unseen = !saw(ip::Kind::Mmap) && pages_during.iter().any(|p| !pages0.contains(p));
     // how does this kernel treat an unaligned hint?
     let probe = unsafe { ip::sys_mmap(0x3333_0000_0800, 4096, libc::PROT_READ, libc::MAP_PRIVATE | libc::MAP_ANONYMOUS, -1, 0) };
     let rounding = if probe == 0x3333_0000_0000 { "down" } else if probe == 0x3333_0000_1000 { "up" } else { "elsewhere" };
@@ -126,7 +139,7 @@ pub fn calibrate() -> Value {
     json!({
         "works": before == 102 && during == 1003 && after == 102,
         "note": "`works` is informational; only the saw_* fields gate the checks",
-        "saw_mmap": saw(ip::Kind::Mmap), "saw_munmap": saw(ip::Kind::Munmap),
+        "saw_mmap": !mapped_unseen, "mmap_calls_logged": log.iter().filter(|e| e.kind == ip::Kind::Mmap).count(), "saw_munmap": saw(ip::Kind::Munmap),
         "saw_mprotect": saw(ip::Kind::Mprotect), "saw_flush": saw(ip::Kind::Flush),
         "hint_rounding": rounding,
         "aslr_off": std::env::var("VNATIVE_NOASLR").ok(),
@@ -137,6 +150,10 @@ pub fn calibrate() -> Value {
 #[inline(never)]
 fn cal_target() -> u64 {
     std::hint::black_box(102)
+}
+#[inline(never)]
+unsafe extern "C" fn cal_fake_l(_x: libc::c_int) -> libc::c_int {
+    std::hint::black_box(1004)
 }
 #[inline(never)]
 fn cal_fake() -> u64 {
